@@ -115,12 +115,8 @@ def strAlphabet : List Nat := [0x61, 0x22, 0x27, 0x5C, 0x0A, 0x0D, 0x20, 0x28, 0
 def stringRoundTripOn (rs : List Cps) : Bool :=
   rs.all fun r => !storedOk r || cssStringDenote (helperString r) == some (storedDenote r)
 
-/-- no control character the tokenizer rejects in an unquoted URL (`C18-url-control-char`) -/
-def noUrlControl (r : Cps) : Bool := r.all fun c => isUrlChar c || forbiddenInUri c || c = cBackslash
-
 def urlRoundTripOn (rs : List Cps) : Bool :=
-  rs.all fun r => !(storedOk r && noUrlControl r) || writtenUrlDenote (helperUri r) == some (storedDenote r)
-
+  rs.all fun r => !storedOk r || writtenUrlDenote (helperUri r) == some (storedDenote r)
 
 /-! small-scope sample of `calc()` expressions (used by a kernel-run test in `Props/C18.lean`) -/
 
